@@ -2,8 +2,16 @@
 import os
 from pathlib import Path
 from typing import Union
+from xml.etree import ElementTree
 
 from .database import Database
+from .exceptions import odxrequire
+
+
+def _add_catalog_file(db: Database, index_file_name: Union[str, Path]) -> None:
+    # the catalog of a PDX archive specifies the name of the database
+    root = ElementTree.parse(str(index_file_name)).getroot()
+    db.short_name = odxrequire(root.findtext("SHORT-NAME"))
 
 
 def load_pdx_file(pdx_file: Union[str, Path]) -> Database:
@@ -38,8 +46,10 @@ def load_files(*file_names: Union[str, Path]) -> Database:
             db.add_pdx_file(str(file_name))
         elif p.suffix.lower().startswith(".odx"):
             db.add_odx_file(str(file_name))
-        elif p.name.lower() != "index.xml":
-            db.add_auxiliary_file(str(file_name))
+        elif p.name.lower() == "index.xml":
+            _add_catalog_file(db, p)
+        else:
+            db.add_auxiliary_file(p.name, open(str(p), "rb"))
 
     db.refresh()
     return db
@@ -57,7 +67,9 @@ def load_directory(dir_name: Union[str, Path]) -> Database:
             db.add_pdx_file(str(p))
         elif p.suffix.lower().startswith(".odx"):
             db.add_odx_file(str(p))
-        elif p.name.lower() != "index.xml":
+        elif p.name.lower() == "index.xml":
+            _add_catalog_file(db, p)
+        else:
             db.add_auxiliary_file(p.name, open(str(p), "rb"))
 
     db.refresh()
